@@ -7,6 +7,24 @@ HERE = os.path.dirname(os.path.abspath(__file__))
 
 # property -> (technique, level text, level note, design ref)
 CLAIMED = {
+    'C17': ('tag-stack depth typestate over per-function CFGs (new_tagss / pop_merge_tagss / discard_tagss pairing); '
+            'shared-singleton mutation taint with fixpoint over "may return shared" summaries; fresh-or-cleared state '
+            'dominance in loops; pattern registry self-consistency',
+            'Static: decides the state discipline the matcher needs so that a match never depends on previous matches or on '
+            'a failed branch: balanced tag stack on every path of every matcher, no mutation of shared containers, '
+            'per-call or cleared _MatchState, registries dispatching each pattern class to its own matcher / pre-filter. '
+            'Layout independence, search == filtered walk and regex equivalence are value-level and not decided.',
+            'Trusts that exceptions abort the whole match (depth on exceptional exits is not constrained) and the frozen '
+            'list of mutating container methods.',
+            'DESIGN.md §2 C17'),
+    'C18': ('table exhaustiveness of template-slot discovery against identifier fields of the grammar; receiver check '
+            '(template never mutated) and dominance of the per-iteration template copy; dominance / post-dominance of the '
+            'substitution counter on the CFG of subn()',
+            'Static, three narrow clauses: slot discovery covers every place an identifier can be written, the template is '
+            'never consumed, and one count per performed substitution on every path. Equality with a reference '
+            'transformer and nested/count/loop semantics are not decided.',
+            'Trusts READ_ONLY method list for FST receivers in sa/rules/c18.py.',
+            'DESIGN.md §2 C18'),
     'C16': ('scope-rule tables: registry coverage of scope-introducing node kinds; symbolic attribute-path extraction of what '
             'each scope helper pushes (both direction arms) compared with a language-reference oracle; binder '
             'exhaustiveness of scope_symbols() against the identifier fields of the grammar',
@@ -57,7 +75,7 @@ NOT_APPLICABLE = {
            'conservation is value-level. Its two structural clauses are checked as R5.1 and R7.3.',
 }
 
-PLANNED = ['C01', 'C02', 'C04', 'C05', 'C06', 'C07', 'C10', 'C11', 'C12', 'C15', 'C17', 'C18', 'C20']
+PLANNED = ['C01', 'C02', 'C04', 'C05', 'C06', 'C07', 'C10', 'C11', 'C12', 'C15', 'C20']
 
 
 def main():
